@@ -1,7 +1,7 @@
 (* Proofs/FootnoteResolve.v — two more clauses of C15 as theorems about the reference walk of Model/Footnotes
    (find_footnote_references), for every tree, every fold / preserve:
 
-   refs_point_to_definitions   every FootnoteReference node LEFT in the tree by the walk carries the (twice) normalised
+   refs_point_to_definitions   every FootnoteReference node LEFT in the tree by the walk carries the normalised
                                name of a definition reachable from the root (top_defs) and a number >= 1
                                ("every footnote reference points to a definition": the name half);
    refs_keys                   the walk never changes the key set of the map, so whether a reference resolves is decided
@@ -54,7 +54,7 @@ Section Resolve.
   Qed.
 
   Definition ref_ok (p : bytes * N * N) : Prop :=
-    (exists d, In d defs /\ fst (fst p) = pres (pres (def_name d))) /\ (1 <= snd p)%N.
+    (exists d, In d defs /\ fst (fst p) = pres (def_name d)) /\ (1 <= snd p)%N.
 
   Definition resolve_at (n : node) : Prop :=
     forall st, inv st -> J (fst st) -> refs_leaf n = true ->
@@ -85,12 +85,12 @@ Section Resolve.
         destruct (f_ix f) as [i|] eqn:Fi; cbn [fst snd all_refs]; split.
         * apply map_set_J; [exact Jm|]. exists d. cbn [f_name f_key]. auto.
         * constructor; [|constructor]. unfold ref_ok. cbn [fst snd]. split.
-          -- exists d. split; [exact Hd|]. rewrite Hn. reflexivity.
+          -- exists d. split; [exact Hd | exact Hn].
           -- destruct I as [_ [BD _]]. rewrite Forall_forall in BD.
              destruct (BD _ (in_ixs _ _ _ Fin Fi)) as [j [Ej Hj]]. injection Ej as <-. lia.
         * apply map_set_J; [exact Jm|]. exists d. cbn [f_name f_key]. auto.
         * constructor; [|constructor]. unfold ref_ok. cbn [fst snd]. split.
-          -- exists d. split; [exact Hd|]. rewrite Hn. reflexivity.
+          -- exists d. split; [exact Hd | exact Hn].
           -- lia.
       + cbn [fst snd all_refs flat_map]. split; [exact Jm | constructor].
     - rewrite refs_nonref by exact R. rewrite refs_leaf_nonref in L by exact R.
